@@ -127,6 +127,39 @@ def facts_dir(repo=REPO, work=WORK):
         lock.close()
 
 
+def _submodule_aliases(datas):
+    """{`mod::sub::Name`: `mod::Name`} (crate-less, as the display forms and the full paths both contain it) for the ADTs of the two
+    crates that live one module level below where the rest of the code base expects them."""
+    all_adts = set()
+    for d in datas:
+        if d.get("crate") in ("spl_frontend", "lsp4spl"):
+            all_adts |= {a["p"] for a in d["adts"]}
+    res = {}
+    for p in sorted(all_adts):
+        segs = p.split("::")
+        if len(segs) != 4 or not segs[0] in ("spl_frontend", "lsp4spl") or segs[2] == "tests":
+            continue
+        crate_, mod_, sub_, name_ = segs
+        canonical = "::".join((crate_, mod_, name_))
+        same_name = [q for q in all_adts if q.startswith(crate_ + "::" + mod_ + "::") and q.endswith("::" + name_)]
+        if canonical in all_adts or len(same_name) != 1:
+            continue
+        # only types that the parent module is known for in this code base (the rules' vocabulary), never a type that is new
+        if (mod_, name_) not in _HOME:
+            continue
+        res["%s::%s::%s" % (mod_, sub_, name_)] = "%s::%s" % (mod_, name_)
+    return res
+
+
+# (module, type) pairs the rules speak about by their path on the triaged tree
+_HOME = {("tokens", "TokenStream"), ("tokens", "Token"), ("tokens", "TokenType"), ("tokens", "TokenChange"), ("tokens", "TokenList"),
+         ("table", "LookupTable"), ("table", "GlobalTable"), ("table", "LocalTable"), ("table", "Entry"), ("table", "GlobalEntry"),
+         ("table", "LocalEntry"), ("table", "TypeEntry"), ("table", "ProcedureEntry"), ("table", "VariableEntry"), ("table", "DataType"),
+         ("table", "SymbolTable"), ("ast", "Operator"), ("ast", "AstInfo"), ("ast", "Reference"), ("ast", "Identifier"),
+         ("features", "Ident"), ("features", "DocumentCursor"), ("io", "Request"), ("io", "Response"), ("io", "PreparedResponse"),
+         ("io", "Message"), ("io", "Notification"), ("io", "LSCodec"), ("document", "DocumentRequest"), ("error", "ParserError")}
+
+
 class Crate:
     def __init__(self, data):
         self.name = data["crate"]
@@ -158,11 +191,24 @@ class Crate:
 class Program:
     def __init__(self, fdir):
         self.crates = {}
+        texts = []
         for f in sorted(os.listdir(fdir)):
             if not f.endswith(".json") or "-test-" in f:
                 continue
             with open(os.path.join(fdir, f)) as fh:
-                c = Crate(json.load(fh))
+                texts.append(fh.read())
+        datas = [json.loads(t) for t in texts]
+        # A type that was moved into a private submodule of its module and re-exported (`mod stream; pub use stream::TokenStream;`)
+        # is still *the* `tokens::TokenStream` of the crate for every user.  The rules name types by the path users see: such a type
+        # is given its re-exported path again (`a::b::c::N` -> `a::b::N`, when no other `a::b::N` exists and N is unique below `a::b`).
+        self.aliases = _submodule_aliases(datas)
+        if self.aliases:
+            import re
+            pat = re.compile("|".join(r"(?<![A-Za-z0-9_])%s(?![A-Za-z0-9_])" % re.escape(k) for k in sorted(self.aliases, key=len, reverse=True)))
+            texts = [pat.sub(lambda m: self.aliases[m.group(0)], t) for t in texts]
+            datas = [json.loads(t) for t in texts]
+        for d in datas:
+            c = Crate(d)
             self.crates[c.name] = c
         self.front = self.crates.get("spl_frontend")
         self.lsp = self.crates.get("lsp4spl")
